@@ -115,11 +115,12 @@ def step (st : St) (toks : List String) : St × List Issue :=
         | "dir" => newCacheAccepts .absent 0 k m .absent 0 18 18 18
         | _ => newCacheAccepts .absent 0 .dir 0o710 k m 18 18 18
       let is : List Issue := []
-      let is := if acc != (res == "accepted") then is ++ [⟨.model, s!"perm {target} {kind} {mode}: model {if acc then "accepts" else "refuses"}, implementation {res}"⟩] else is
+      let used := res == "accepted" || res == "accepted-and-blocked"
+      let is := if acc != used then is ++ [⟨.model, s!"perm {target} {kind} {mode}: model {if acc then "accepts" else "refuses"}, implementation {res}"⟩] else is
       -- property: symlinks, wrong file types and group/other-writable entries are refused
       let wrongType := k != .absent && k != (if target == "file" then Nri.SaveFs.Kind.regular else Nri.SaveFs.Kind.dir)
       let unsafeEntry := wrongType || (k != .absent && m &&& 0o022 != 0)
-      let is := if unsafeEntry && res == "accepted" then is ++ [⟨.property, s!"C10:unsafe-entry-accepted {target} {kind} mode={mode}"⟩] else is
+      let is := if unsafeEntry && used then is ++ [⟨.property, s!"C10:unsafe-entry-accepted {target} {kind} mode={mode} ({res})"⟩] else is
       (st, is)
     | _, _ => (st, [⟨.parse, "P"⟩])
   | _ => (st, [⟨.parse, "unknown"⟩])
